@@ -449,6 +449,7 @@ func c20Subset(c *Ctx) {
 	// Explore = Selection(FindPlausibleMoves(b) cut to at most p.Limit moves): through the truncate
 	// helper, or by an inline guarded re-slicing
 	ok := false
+	nSel := 0
 	detail := ""
 	var trunc *ssa.Function
 	for _, fn := range c.P.AllFuncs {
@@ -468,9 +469,14 @@ func c20Subset(c *Ctx) {
 				continue
 			}
 			arg := call.Call.Args[0]
+			nSel++
+			if !ok && nSel > 1 {
+				continue // an earlier Selection was already found wanting
+			}
 			detail = "Selection(" + pathExpr(arg) + ")"
 			if tc, isT := arg.(*ssa.Call); isT && trunc != nil && tc.Call.StaticCallee() != nil && strings.HasPrefix(tc.Call.StaticCallee().Name(), "truncate") && funcPkgPath(tc.Call.StaticCallee()) == fpm.Pkg.Pkg.Path() && len(tc.Call.Args) == 2 {
-				ok = isFPM(tc.Call.Args[0]) && isLimit(tc.Call.Args[1])
+				this := isFPM(tc.Call.Args[0]) && isLimit(tc.Call.Args[1])
+				ok = this && (ok || nSel == 1)
 				continue
 			}
 			// inline: every definition is the list itself (only where it is already short enough or the
@@ -508,7 +514,7 @@ func c20Subset(c *Ctx) {
 					}
 				}
 			}
-			ok = good && nSliced >= 1
+			ok = good && nSliced >= 1 && (ok || nSel == 1)
 		}
 	}
 	r.Check(ok, "R20-subset", "bernstein Explore truncates to the branch limit before Selection", c.pos(explore.Pos()), "", detail)
